@@ -17,6 +17,7 @@
 import Dirk.Lemmas.Run
 import Dirk.Spec.Slashing
 import Dirk.Props.KernelsEq
+import Dirk.Props.FactsStore
 import Dirk.Lemmas.SszBinding
 
 namespace Dirk
